@@ -598,7 +598,18 @@ func applyMutation(c AlignCase, m align.SubstitutionMatrix, rm ref.Matrix) bool 
 	if mu.Which != "pair" && mu.Delta > 0 {
 		return false
 	}
+	// the change is made in the matrix's own unit (Scale, Div, Shrink as in build), so that every
+	// score stays a multiple of that unit and sums stay exact
 	sc := float64(max(c.M.Scale, 1))
+	if c.M.Div > 1 {
+		sc /= float64(c.M.Div)
+	}
+	if c.M.Shrink > 0 && c.M.Shrink <= 60 {
+		sc = math.Ldexp(sc, -c.M.Shrink)
+	}
+	if math.IsInf(m[k], 0) {
+		return false // gaps forbidden (-Inf) stay forbidden
+	}
 	m[k] += sc * float64(mu.Delta)
 	rm[k] += sc * float64(mu.Delta)
 	return true
